@@ -10,6 +10,14 @@ claimed = {
          "Every text of length <= 7 (thorough: 9) over {a,b,newline} x 5 prefixes x every composition into Write calls (plus one empty Write at every position) x every stop point of the underlying writer is executed against the real indent.NewWriter and compared byte for byte and count for count with a 10-line reference indenter that tracks which output byte came from which caller byte. Exhaustive within the bound, no sampling.",
          "Trusted: the reference indenter; the 3-symbol alphabet (the writer distinguishes only line breaks from other bytes); one fault per execution, caller stops after the first error.",
          "DESIGN.md §3 C20"),
+ "C15": ("exhaustive boundary-grid enumeration (all pairs) vs. math/big",
+         "Every number of a boundary grid (0, powers of ten and two with neighbours, the 2^31/2^32/2^63/2^64 extremes) x sign x fraction-digits 0..18 inside the stated domain, every ordered pair of them, and every literal of a [sign]int[.frac] grid x requested precision is run through String, ParseInt, ParseDecimal, Int, FromInt, FromUint, Less and Equal and compared with exact big-integer arithmetic. Exhaustive over the grid (6.3 M cases quick, more thorough).",
+         "Trusted: math/big. The grid stands in for the 2^64-sized domain: a defect that only shows at a non-boundary value is not excluded.",
+         "DESIGN.md §3 C15"),
+ "C14": ("exhaustive enumeration of member sequences vs. the RFC rule as a fold",
+         "Every enum/bits member sequence of length <= 4 (thorough: 5 through the API) over a 16-value boundary alphabet incl. 'implicit', with every pattern of repeated names, is driven through NewEnumType/NewBitfield Set/SetNext and through module text + Process, and NameMap/ValueMap/Names/Values/errors are compared with a 30-line fold of RFC 7950 9.6.4.2/9.7.4.2.",
+         "Trusted: the reference fold. After the first member the rule rejects only 'an error is reported' is required. Uniqueness of bit positions is not claimed by the property.",
+         "DESIGN.md §3 C14"),
 }
 pending_reason = "check not built yet in this session (see DESIGN.md §12 build order); it will be claimed once its harness exists and is quiet on the unchanged tree"
 not_applicable_reasons = {}
